@@ -16,7 +16,7 @@ pub fn def() -> PropDef {
         nontrivial,
         rule: "timeout t in 1..1000 virtual ticks (and no-timeout control runs), handler durations drawn from {0, t-1, t+1, t/10, 5t, uniform, yields only}, message sequences from 1-3 clients with successors queued behind the slow one and idle gaps (shorter and longer than t) between messages, fail_on_timeout in {false,true}, both mailbox kinds, ideal clock (exact boundaries) and racing clock (consistency rules only); x seeded schedules; non-trivial = an invocation ran within one tick of the limit, or was abandoned with successors queued; distinct = distinct order of client-op and callback events",
         needed_probes: &["c11_below_limit", "c11_above_limit", "c11_boundary", "c11_successor_after_abandon", "c11_fail_on_timeout", "c11_no_timeout_control"],
-        quick_runs: 100_000,
+        quick_runs: 200_000,
         thorough_runs: 2_000_000,
         block: 1,
         flavours: &["tokio"],
